@@ -17,7 +17,7 @@ RULE = ("Coq: Properties/C22.v over Fixes.v (model of apply_fixes in src/syntax_
         "`garden check --fix --stdout` (CLI), which must (a) equal the extracted model's apply_fixes on the real "
         "fix groups, (b) equal an independent Python simultaneous splice of the groups chosen by a pairwise "
         "overlap test, (c) parse (hook op `sexp`), (d) when the original ran to a value: print the same stdout and "
-        "end with the same value (hook op `run`); `--fix` is iterated to a fixed point (<= 5 rounds) and (c),(d) "
+        "end with the same value (hook op `run`); `--fix` is iterated to a fixed point (<= 8 rounds: a fix can expose the next lint, cascades of 5 were observed) and (c),(d) "
         "are checked after every round. A case is non-trivial when at least one fix was offered.")
 META = {
     "technique": "Coq proof over a hand-written model of fix application + differential execution of the extracted "
@@ -47,7 +47,7 @@ META = {
 }
 
 TICKS = 200000
-MAX_ROUNDS = 5
+MAX_ROUNDS = 8       # one fix can expose the next lint (arm removed -> let unused -> value unused -> loop variable unused): cascades of 5 occur
 
 
 # ---------------------------------------------------------------------------
